@@ -124,71 +124,43 @@ class EarliestStartTimeObserver(FeatureObserver):
         """Recomputes the earliest start times and calls the
         ``initialize_features`` method.
 
-        The earliest start times is computed as the cumulative sum of the
-        previous unscheduled operations in the job plus the maximum of the
-        completion time of the last scheduled operation and the next available
-        time of the machine(s) the operation is assigned.
-
-        After that, we substract the current time.
-
         Args:
             scheduled_operation: The operation that has been scheduled.
         """
-        # We compute the gap that the current scheduled operation could be
-        # adding to each job.
-        job_id = scheduled_operation.job_id
-        next_operation_idx = self.dispatcher.job_next_operation_index[job_id]
-        if next_operation_idx < len(self.dispatcher.instance.jobs[job_id]):
-            old_start_time = self.earliest_start_times[
-                job_id, next_operation_idx
-            ]
-            next_operation = self.dispatcher.instance.jobs[job_id][
-                next_operation_idx
-            ]
-            new_start_time = max(
-                scheduled_operation.end_time,
-                old_start_time,
-                self.dispatcher.earliest_start_time(next_operation),
-            )
-            gap = new_start_time - old_start_time
-            self.earliest_start_times[job_id, next_operation_idx:] += gap
-
-        # Now, we compute the gap that could be introduced by the new
-        # next_available_time of the machine.
-        machine_ops = self.dispatcher.instance.operations_by_machine[
-            scheduled_operation.machine_id
-        ]
-        unscheduled_mask = np.array(
-            [not self.dispatcher.is_scheduled(op) for op in machine_ops]
-        )
-        if np.any(unscheduled_mask):
-            if self._job_ids.size == 0:
-                job_ids = np.array([op.job_id for op in machine_ops])[
-                    unscheduled_mask
-                ]
-            else:
-                job_ids = self._job_ids[scheduled_operation.machine_id][
-                    unscheduled_mask
-                ]
-
-            if self._positions.size == 0:
-                positions = np.array(
-                    [op.position_in_job for op in machine_ops]
-                )[unscheduled_mask]
-            else:
-                positions = self._positions[scheduled_operation.machine_id][
-                    unscheduled_mask
-                ]
-            old_start_times = self.earliest_start_times[job_ids, positions]
-            new_start_times = np.maximum(
-                scheduled_operation.end_time, old_start_times
-            )
-            gaps = new_start_times - old_start_times
-
-            for job_id, position, gap in zip(job_ids, positions, gaps):
-                self.earliest_start_times[job_id, position:] += gap
-
+        self._compute_earliest_start_times()
         self.initialize_features()
+
+    def _compute_earliest_start_times(self):
+        """Computes the earliest start time of every unscheduled operation
+        from the current state of the dispatcher.
+
+        The earliest start time of the next operation of a job is the maximum
+        of the completion time of the last scheduled operation of the job and
+        the next available time of the machine(s) the operation is assigned.
+        For the following operations of the job, the completion time of the
+        previous operation (its earliest start time plus its duration) is
+        used instead.
+        """
+        machine_next_available_time = (
+            self.dispatcher.machine_next_available_time
+        )
+        for job_id, job in enumerate(self.dispatcher.instance.jobs):
+            previous_end_time = self.dispatcher.job_next_available_time[job_id]
+            next_operation_idx = self.dispatcher.job_next_operation_index[
+                job_id
+            ]
+            for operation in job[next_operation_idx:]:
+                start_time = max(
+                    previous_end_time,
+                    min(
+                        machine_next_available_time[machine_id]
+                        for machine_id in operation.machines
+                    ),
+                )
+                self.earliest_start_times[
+                    job_id, operation.position_in_job
+                ] = start_time
+                previous_end_time = start_time + operation.duration
 
     def initialize_features(self):
         """Initializes the features based on the current state of the
